@@ -284,6 +284,20 @@ fn run_doc(d: &DSpec, what: &str, ctx: &mut Ctx) {
     ctx.state(f.finish());
     if let Some((field, detail)) = compare(&src, &got) {
         ctx.violation(format!("diff:icy:{field}"), json!({"varied": what, "doc": d.json(), "difference": detail}));
+        return;
+    }
+    // second generation: the loaded document is saved and loaded again (what a user does with a file)
+    ctx.count("transitions", 2);
+    match save_icy(&got).and_then(|b| load_icy(&b)) {
+        Ok(again) => {
+            if let Some((field, detail)) = compare(&src, &again) {
+                ctx.violation(format!("diff:icy:second-generation:{field}"), json!({"varied": what, "doc": d.json(), "difference": detail}));
+            }
+        }
+        Err(e) => {
+            let sig = if e.starts_with("PANIC") { format!("{}:second-generation", e.replace("PANIC ", "")) } else { "diff:icy:second-generation:refused".to_string() };
+            ctx.violation(sig, json!({"varied": what, "doc": d.json(), "error": e}));
+        }
     }
 }
 
